@@ -170,7 +170,9 @@ theorem abortOne_str {P s} (h : Str P s) (i) : Str P (abortOne s i) := by
   · rename_i k hk
     split
     · exact (h.remove i k hk).congr rfl rfl rfl rfl
-    · exact invalidate_str h k
+    · split
+      · exact h
+      · exact invalidate_str h k
 
 theorem abortObjs_str {P s} (h : Str P s) : Str P (abortObjs s) :=
   foldl_pres (Str P) abortOne (fun _ k h => abortOne_str h k) _ s h
